@@ -2,6 +2,7 @@ package main
 
 import (
 	"context"
+	"strings"
 	"encoding/json"
 	"fmt"
 	"math/rand"
@@ -68,6 +69,7 @@ type State struct {
 	Pq []int    `json:"pq"`
 	Li []int    `json:"li"`
 	Fl []Flight `json:"fl"`
+	Up []int    `json:"up"` // endpoints whose server listens (absent in behaviours recorded before faults were modelled: all)
 }
 
 type Step struct {
@@ -231,6 +233,7 @@ func replayOnce(idx int, b *Behaviour, timeoutMode bool, tms int, attempt int64)
 		}
 		for _, s := range r.servers {
 			s.stop()
+			forgetConns(s.name())
 		}
 	}()
 	comm := tars.NewCommunicator(tars.Registrar(registryFor(r.servers)))
@@ -276,8 +279,12 @@ func replayOnce(idx int, b *Behaviour, timeoutMode bool, tms int, attempt int64)
 		switch st.A {
 		case "Select":
 			f, e, g, why, trunc = r.doSelect(i, st)
+		case "Refused":
+			f, e, g, why, trunc = r.doRefused(i, st)
 		case "CallDone":
 			f, e, g, why = r.doCallDone(i, st)
+		case "Down", "Up":
+			f, e, g, why = r.doSetUp(i, st)
 		case "Check":
 			tars.VerifFailoverCheckStatus(r.sp)
 			r.stats["checks"]++
@@ -369,6 +376,11 @@ func (r *run) doSelect(i int, st *Step) (field, exp, got, why string, trunc bool
 			// anything else is a request of a call that was already given up (none is expected)
 		case err := <-done:
 			sl.busy = false
+			if t := r.refusedBy(err); t != 0 && t != st.E && r.servers[t-1].down && inInts(st.Cands, t) {
+				// the strategy chose another admissible endpoint, one that does not listen: the rest cannot be followed
+				r.stats["choice_mismatch"]++
+				return "", "", "", fmt.Sprintf("strategy %q chose endpoint %d, the behaviour %d (both admissible)", st.K, t, st.E), true
+			}
 			return "attempted", fmt.Sprintf("call sent to endpoint %d", st.E), fmt.Sprintf("call ended without reaching any endpoint: %v", err),
 				"a call must be attempted on some endpoint", false
 		case <-timer.C:
@@ -399,6 +411,167 @@ func (r *run) doSelect(i int, st *Step) (field, exp, got, why string, trunc bool
 		r.stats["fallback_calls"]++
 	}
 	return "", "", "", "", false
+}
+
+func inInts(xs []int, x int) bool {
+	for _, y := range xs {
+		if y == x {
+			return true
+		}
+	}
+	return false
+}
+
+// refusedBy: the endpoint whose address the transport's dial error names (0: none).
+func (r *run) refusedBy(err error) int {
+	if err == nil {
+		return 0
+	}
+	for e := 1; e <= r.b.N; e++ {
+		if strings.Contains(err.Error(), r.name(e)+":") || strings.HasSuffix(err.Error(), r.name(e)) {
+			return e
+		}
+	}
+	return 0
+}
+
+// doSetUp: the scripted server of an endpoint stops listening (and drops its connections) or listens again.
+func (r *run) doSetUp(i int, st *Step) (field, exp, got, why string) {
+	if st.E < 1 || st.E > r.b.N {
+		return "harness", "", "", "no such endpoint"
+	}
+	s := r.servers[st.E-1]
+	if st.A == "Down" {
+		if s.down {
+			return "harness", "", "", "server is already down"
+		}
+		s.goDown()
+		if !waitNoConns(s.name(), 2*time.Second) {
+			return "harness", "", "", "the client did not notice within 2 s that the server closed its connection"
+		}
+		r.stats["servers_stopped"]++
+	} else {
+		if !s.down {
+			return "harness", "", "", "server is already up"
+		}
+		if err := s.comeBack(); err != nil {
+			return "harness", "", "", "server could not listen again: " + err.Error()
+		}
+		r.stats["servers_restarted"]++
+	}
+	if st.St.Up != nil {
+		for e := 1; e <= r.b.N; e++ {
+			if inInts(st.St.Up, e) == r.servers[e-1].down {
+				return "harness", "", "", fmt.Sprintf("model and driver disagree about which servers listen (endpoint %d)", e)
+			}
+		}
+	}
+	return "", "", "", ""
+}
+
+// doRefused: a call that the model routes to an endpoint whose server does not listen.  The real call must be attempted there
+// (the dial error names that endpoint's address, the send counter of its adapter moves) and fail at once; the state after the
+// step -- in particular the failure counters -- is compared like after any other step.
+func (r *run) doRefused(i int, st *Step) (field, exp, got, why string, trunc bool) {
+	sl := &r.slots[st.C]
+	if sl.busy {
+		return "harness", "", "", "slot busy", false
+	}
+	if !r.servers[st.E-1].down {
+		return "harness", "", "", "the behaviour refuses a call on an endpoint whose server listens", false
+	}
+	probe := false
+	if i > 0 {
+		probe = len(r.b.Steps[i-1].St.Pq) > 0
+	}
+	code := uint32(r.rng.Intn(1 << 20))
+	if !probe && len(st.Cands) > 1 {
+		code = r.steer(st, code)
+	}
+	before := tars.VerifFailoverHealthOf(r.sp)
+	r.callSeq++
+	fn := fmt.Sprintf("f%d_%d", r.idx, r.callSeq)
+	ctx := current.ContextWithClientCurrent(context.Background())
+	switch st.K {
+	case "mod":
+		current.SetClientHash(ctx, int(tars.ModHash), code)
+	case "ch":
+		current.SetClientHash(ctx, int(tars.ConsistentHash), code)
+	}
+	ctx, cancel := context.WithCancel(ctx)
+	defer cancel()
+	done := make(chan error, 1)
+	sp := r.sp
+	go func() {
+		var resp requestf.ResponsePacket
+		done <- sp.TarsInvoke(ctx, 0, fn, []byte{}, nil, nil, &resp)
+	}()
+	r.stats["calls"]++
+	r.stats["refused_calls"]++
+	if probe {
+		r.stats["probe_calls"]++
+		r.stats["refused_probe_calls"]++
+	}
+	timer := time.NewTimer(4 * time.Second)
+	defer timer.Stop()
+	kind := fmt.Sprintf("%s%s", st.K, map[bool]string{true: ", probe", false: ""}[probe])
+	for {
+		select {
+		case a := <-r.arrivals:
+			if a.fn != fn {
+				continue
+			}
+			// a listening server has the request
+			cancel()
+			select {
+			case <-done:
+			case <-time.After(4 * time.Second):
+			}
+			if a.server != st.E && inInts(st.Cands, a.server) {
+				r.stats["choice_mismatch"]++
+				return "", "", "", fmt.Sprintf("strategy %q chose endpoint %d, the behaviour %d (both admissible)", st.K, a.server, st.E), true
+			}
+			return "target", fmt.Sprintf("one of %v", st.Cands), fmt.Sprint(a.server),
+				fmt.Sprintf("call (%s) went to endpoint %d which the model does not allow", kind, a.server), false
+		case <-timer.C:
+			cancel()
+			return "result", "immediate error (connection refused)", "the call neither failed nor reached a server within 4 s",
+				"a call to an endpoint that does not listen fails at once", false
+		case err := <-done:
+			if err == nil {
+				return "result", "error", "success", "no server listens on the endpoint but the call succeeded", false
+			}
+			t := r.refusedBy(err)
+			if t == 0 {
+				// the error does not name an address: which adapter counted a request?
+				after := tars.VerifFailoverHealthOf(r.sp)
+				for e := 1; e <= r.b.N; e++ {
+					if after[r.name(e)].SendCount != before[r.name(e)].SendCount || (after[r.name(e)].Exists && !before[r.name(e)].Exists) {
+						t = e
+					}
+				}
+			}
+			if t == 0 {
+				return "attempted", fmt.Sprintf("call attempted on endpoint %d", st.E), fmt.Sprintf("call ended without being attempted on any endpoint: %v", err),
+					"a call must be attempted on some endpoint", false
+			}
+			if t != st.E {
+				if inInts(st.Cands, t) {
+					r.stats["choice_mismatch"]++
+					return "", "", "", fmt.Sprintf("strategy %q chose endpoint %d, the behaviour %d (both admissible)", st.K, t, st.E), true
+				}
+				return "target", fmt.Sprintf("one of %v", st.Cands), fmt.Sprint(t),
+					fmt.Sprintf("call (%s) was attempted on endpoint %d which the model does not allow", kind, t), false
+			}
+			if len(st.Cands) > 1 {
+				r.stats["steered_ok"]++
+			}
+			if len(st.St.Ac) == 0 && !probe {
+				r.stats["fallback_calls"]++
+			}
+			return "", "", "", "", false
+		}
+	}
 }
 
 // steer positions the real strategy so that it picks the endpoint the behaviour names: a hash code for
